@@ -329,13 +329,31 @@ pub fn run_history(v: &Value, hid: u64) -> Vec<String> {
             Ok(x) => x,
             Err(()) => (vec![], "{\"poisoned\":true}".to_string()),
         };
+        // what the EDNS reader of the object yields now (C09: the EDNS data as seen through the API)
+        let edns = match guarded(|| {
+            let mut v = vec![];
+            let mut it = pp.into_iter_edns();
+            let mut n = 0;
+            while let Some(i) = it {
+                v.push(format!("[{},{}]", i.offset().unwrap(), i.offset_next()));
+                it = i.next();
+                n += 1;
+                if n > 70000 {
+                    break;
+                }
+            }
+            v
+        }) {
+            Ok(v) => format!("{{\"res\":\"ok\",\"opts\":[{}]}}", v.join(",")),
+            Err(()) => "{\"res\":\"panic\",\"opts\":[]}".to_string(),
+        };
         let reparse = match guarded(|| DNSSector::new(postb.clone()).and_then(|d| d.parse()).map(|p| view_json(&p))) {
             Ok(Ok(v)) => format!("{{\"res\":\"ok\",\"view\":{}}}", v),
             Ok(Err(_)) => "{\"res\":\"err\",\"view\":{}}".to_string(),
             Err(()) => "{\"res\":\"panic\",\"view\":{}}".to_string(),
         };
         lines.push(format!(
-            "{{\"k\":\"step\",\"h\":{},\"i\":{},\"pre\":{},\"mc0\":{},\"cached0\":{},\"o\":{},\"res\":\"{}\",\"e\":{}{},\"post\":{},\"view\":{},\"reparse\":{}}}",
+            "{{\"k\":\"step\",\"h\":{},\"i\":{},\"pre\":{},\"mc0\":{},\"cached0\":{},\"o\":{},\"res\":\"{}\",\"e\":{}{},\"post\":{},\"view\":{},\"edns\":{},\"reparse\":{}}}",
             hid,
             i,
             jbytes(&pre),
@@ -347,6 +365,7 @@ pub fn run_history(v: &Value, hid: u64) -> Vec<String> {
             extra,
             jbytes(&postb),
             view,
+            edns,
             reparse
         ));
         if panicked {
@@ -371,6 +390,28 @@ pub fn run_walk(v: &Value) -> Option<String> {
     let del: Vec<Vec<u8>> = v["del"].as_array().map(|a| a.iter().map(vbytes).collect()).unwrap_or_default();
     let del_q = v["del_q"].as_bool().unwrap_or(false);
     let max_yields = vusize(&v["max_yields"]).max(8);
+    // optional prelude: put the object into another state before the walk (pointer-free, cache filled)
+    let mut pkt = pkt;
+    if let Some(pre) = v["prelude"].as_array() {
+        let r = guarded(|| {
+            for p in pre {
+                match p.as_str().unwrap_or("") {
+                    "recompute" => {
+                        let _ = pp.recompute();
+                    }
+                    "read_question" => {
+                        let _ = pp.question_raw0().map(|x| x.1);
+                    }
+                    _ => {}
+                }
+            }
+            pp.packet().to_vec()
+        });
+        match r {
+            Ok(b) => pkt = b,
+            Err(()) => return Some(format!("{{\"k\":\"walk\",\"pre\":{},\"res\":\"panic\",\"sec\":\"Q\",\"incl\":false,\"del\":[],\"del_q\":false,\"ys\":[]}}", jbytes(&pkt))),
+        }
+    }
     let mc0 = pp.maybe_compressed;
     let mut ys: Vec<String> = vec![];
     let mut ended = "end";
